@@ -47,7 +47,7 @@ Definition parse_pi (s : stream) (c : C) : res (stream * C) :=
   let start := s_pos s in
   let! s := advance 2 s in
   let! (target, s) := consume_name text s in
-  let s := skip_spaces s in
+  let! s := if starts_with s (b "?>") then Ok s else consume_spaces text s in
   let! (content, s) := consume_chars text
       (fun s ch => negb ((ch =? 63) && starts_with s (b "?>"))) s in
   let content := if slice_len content =? 0 then None else Some content in
